@@ -12,7 +12,8 @@ RULE = ("pairs of planar polylines (1-4 segments each, dyadic vertices and knots
         "several crossings, crossings at vertices, disjoint curves (far apart, near misses, parallel pieces) and curves "
         "with overlapping bounding boxes that do not meet, misses by 3e-6 .. 5e-4 (an end of B just off a piece of A); a "
         "straight segment A stored as a rational quadratic with an interior knot, collinear control points and random "
-        "positive weights (same point set, monotone parameter); non-trivial = at least one crossing or a near miss")
+        "positive weights (same point set, monotone parameter); parameter intervals shifted to about 1e6; curves that were "
+        "intersected once before their control points were replaced; non-trivial = at least one crossing or a near miss")
 
 
 def cross(o, a, b):
@@ -117,6 +118,8 @@ def gen(tier, seed):
             Pb[rnd.randrange(len(Pb))] = list(Pa[rnd.randrange(len(Pa))])
             if any(Pb[i] == Pb[i + 1] for i in range(len(Pb) - 1)):
                 continue
+        if any(Pa[i] == Pa[i + 1] for i in range(len(Pa) - 1)) or any(Pb[i] == Pb[i + 1] for i in range(len(Pb) - 1)):
+            continue          # no pieces of zero length in this stream
         bad = False
         gaps = []
         for i in range(len(Pa) - 1):
@@ -135,9 +138,21 @@ def gen(tier, seed):
             near = g < 1
         else:
             near = False
-        cases.append({"ka": fsl(ka), "Pa": pts_json(Pa), "kb": fsl(kb), "Pb": pts_json(Pb), "mode": mode, "ra": ra,
-                      "elevate": rnd.choice((0, 0, 0, 1, 2, 3)) if ra is None else rnd.choice((0, 2)),
-                      "meets": m, "near_miss": near})
+        case = {"ka": fsl(ka), "Pa": pts_json(Pa), "kb": fsl(kb), "Pb": pts_json(Pb), "mode": mode, "ra": ra,
+                "elevate": rnd.choice((0, 0, 0, 1, 2, 3)) if ra is None else rnd.choice((0, 2)),
+                "meets": m, "near_miss": near, "pre": None}
+        r = rnd.random()
+        if ra is None and r < 0.15:
+            # parameter intervals far from the origin (around 1e6): distinct crossings stay distinct, relative to nothing
+            off = F(rnd.choice((10 ** 6, 2 * 10 ** 6 + 1)))
+            case["ka"], case["kb"] = fsl([k + off for k in ka]), fsl([k + off / 2 for k in kb])
+            case["mode"] = mode + "+far-knots"
+        elif ra is None and r < 0.30:
+            # A had another geometry when it was first intersected; its control points were replaced afterwards
+            case["pre"] = pts_json([[F(rnd.randint(-16, 16), 4), F(rnd.randint(-16, 16), 4)] for _ in Pa])
+            case["elevate"] = case["elevate"] & 2
+            case["mode"] = mode + "+moved"
+        cases.append(case)
     return cases
 
 
@@ -151,6 +166,10 @@ def impl(case):
         ks = [float(k) for k in nums(ks)]
         return Curve([ks[0]] + ks + [ks[-1]], [np.array([float(v) for v in nums(pt)]) for pt in P])
     A, B = build(case["ka"], case["Pa"]), build(case["kb"], case["Pb"])
+    if case.get("pre"):
+        A = build(case["ka"], case["pre"])
+        capture(lambda: Intersection.curve_and_curve(A, B), seconds=30)
+        A.ctrlpoints = [np.array([float(v) for v in nums(pt)]) for pt in case["Pa"]]
     if case.get("ra"):
         ra = case["ra"]
         A = Curve([float(k) for k in nums(ra["U"])], [np.array([float(v) for v in nums(pt)]) for pt in ra["P"]])
